@@ -49,10 +49,6 @@ Record file := mkFile {
   f_rawexports : list sym       (* ResolvedExports (SourceIndex, Ref) in SortedAndFilteredExportAliases order *)
 }.
 Definition live_parts (fl : file) : list part := filter p_live (f_parts fl).
-(* cross-file dependencies of ALL parts (markFileReachableForCodeSplitting walks every part) *)
-Definition f_deps (fl : file) : list nat := flat_map p_deps (f_parts fl).
-(* ... and of the LIVE parts only (tree shaking follows only these) *)
-Definition f_ldeps (fl : file) : list nat := flat_map p_deps (live_parts fl).
 Fixpoint lookup_bind (s : sym) (l : list (sym * sym)) : option sym :=
   match l with
   | [] => None
@@ -76,6 +72,24 @@ Definition getf (g : graph) (f : nat) : file := nth f (g_files g) nofile.
    file that resolved the export (c.graph.Files[export.SourceIndex]...ImportsToBind) *)
 Definition entry_exports (g : graph) (e : nat) : list sym :=
   map (fun s => resolve_in (getf g (fst s)) s) (f_rawexports (getf g e)).
+
+(* Part.Dependencies.  The dumped dependencies of a part are completed with what steps 5/6 of
+   scanImportsAndExports add by construction: a dependency on the file of every part that
+   declares a symbol the part uses (after ImportsToBind); the same for the dummy part of an
+   entry point and its export targets.  On a real dump this adds nothing (the correspondence
+   would show it); it makes "dependencies cover uses" a theorem instead of an assumption. *)
+Definition declared_any (fl : file) : list nat := flat_map p_declared (f_parts fl).
+Definition is_declared (g : graph) (s : sym) : bool := memn (snd s) (declared_any (getf g (fst s))).
+Definition sym_deps (g : graph) (fl : file) (p : part) : list nat :=
+  map fst (filter (is_declared g) (map (resolve_in fl) (p_uses p))).
+Definition part_deps (g : graph) (fl : file) (p : part) : list nat := p_deps p ++ sym_deps g fl p.
+(* dependencies of ALL parts (markFileReachableForCodeSplitting walks every part) *)
+Definition f_deps (g : graph) (fl : file) : list nat := flat_map (part_deps g fl) (f_parts fl).
+(* ... and of the LIVE parts only (tree shaking follows only these) *)
+Definition f_ldeps (g : graph) (fl : file) : list nat := flat_map (part_deps g fl) (live_parts fl).
+(* the entry point part depends on the parts declaring the export targets *)
+Definition export_deps (g : graph) (ents : list nat) (e : nat) : list nat :=
+  if memn e ents then map fst (filter (is_declared g) (entry_exports g e)) else [].
 Definition nfiles (g : graph) : nat := length (g_files g).
 
 (* ---- findReachableFiles: DFS post-order, runtime first, then the entry points ---- *)
@@ -127,8 +141,8 @@ Definition closure (fuel : nat) (succ : nat -> list nat) (ok : nat -> bool) (roo
   if closedb succ ok (map fst r) then Some r else None.
 
 (* ---- markFileLiveForTreeShaking, at file granularity ---- *)
-Definition live_succ (g : graph) (f : nat) : list nat :=
-  map fst (filter (fun r => negb (snd r)) (f_recs (getf g f))) ++ f_ldeps (getf g f).
+Definition live_succ (g : graph) (ents : list nat) (f : nat) : list nat :=
+  map fst (filter (fun r => negb (snd r)) (f_recs (getf g f))) ++ (f_ldeps g (getf g f) ++ export_deps g ents f).
 
 (* ---- markFileReachableForCodeSplitting ---- *)
 (* isExternalDynamicImport: import() of an entry point other than the file itself *)
@@ -136,7 +150,7 @@ Definition is_external_dynamic (ents : list nat) (f : nat) (r : nat * bool) : bo
   snd r && memn (fst r) ents && negb (fst r =? f)%nat.
 Definition split_succ (g : graph) (ents : list nat) (f : nat) : list nat :=
   map fst (filter (fun r => negb (is_external_dynamic ents f r)) (f_recs (getf g f)))
-  ++ filter (fun t => negb (t =? f)%nat) (f_deps (getf g f)).
+  ++ filter (fun t => negb (t =? f)%nat) (f_deps g (getf g f) ++ export_deps g ents f).
 
 Fixpoint lookup_dist (f : nat) (r : list (nat * nat)) : option nat :=
   match r with
@@ -209,7 +223,7 @@ Definition analyse (g : graph) : option analysis :=
   let order := reachable_files g in
   let ents := entries g in
   let fuel := S (nfiles g) in
-  match closure fuel (live_succ g) (fun _ => true) ents with
+  match closure fuel (live_succ g ents) (fun _ => true) ents with
   | None => None
   | Some lv =>
     let live := map fst lv in
@@ -414,10 +428,12 @@ Definition split (g : graph) : option result :=
     end
   end.
 
-(* executable form of the assumption used by the cross-chunk theorems: every
-   symbol used from / exported from another file is backed by a part dependency *)
+(* diagnostic evaluated on every linker dump: the DUMPED dependencies alone already cover
+   the uses of declared symbols and the entry points' export targets *)
+Definition raw_deps (fl : file) : list nat := flat_map p_deps (f_parts fl).
 Definition deps_coverb (g : graph) : bool :=
   forallb (fun f =>
-    forallb (fun s : sym => (fst s =? f)%nat || memn (fst s) (f_deps (getf g f))) (f_uses (getf g f)) &&
-    forallb (fun s : sym => (fst s =? f)%nat || memn (fst s) (f_deps (getf g f))) (entry_exports g f))
+    forallb (fun s : sym => negb (is_declared g s) || (fst s =? f)%nat || memn (fst s) (raw_deps (getf g f))) (f_uses (getf g f)) &&
+    (negb (memn f (entries g)) ||
+     forallb (fun s : sym => negb (is_declared g s) || (fst s =? f)%nat || memn (fst s) (raw_deps (getf g f))) (entry_exports g f)))
     (seq 0 (nfiles g)).
